@@ -33,7 +33,7 @@ def both_ways(acc, cls, wire, obj_maker, label, fields_check, w):
     try:
         o = cls.parse_exact_size(wire)
     except Exception as e:  # noqa
-        acc.violation('%s:reference_rejected:%s' % (label, type(e).__name__), 'specification encoding of a %s rejected: %s'
+        acc.violation('%s:reference_rejected:%s' % (label, core.ename(e)), 'specification encoding of a %s rejected: %s'
                       % (cls.__name__, str(e)[:60]), w)
         o = None
     if o is not None:
@@ -51,7 +51,7 @@ def both_ways(acc, cls, wire, obj_maker, label, fields_check, w):
             try:
                 o2, n2 = cls.parse_immutable(wire + tail)
             except Exception as e:  # noqa
-                acc.violation('%s:followed_by_data:%s' % (label, type(e).__name__), 'specification encoding of a %s is '
+                acc.violation('%s:followed_by_data:%s' % (label, core.ename(e)), 'specification encoding of a %s is '
                               'rejected when %d more octets follow it' % (cls.__name__, len(tail)), dict(w, tail=tail))
                 break
             if n2 != len(wire) or canon.dump(o2, eq=True) != canon.dump(o, eq=True):
@@ -63,7 +63,7 @@ def both_ways(acc, cls, wire, obj_maker, label, fields_check, w):
         try:
             got = bytes(obj_maker().compose())
         except Exception as e:  # noqa
-            acc.violation('%s:compose_raises:%s' % (label, type(e).__name__), '%s with these fields cannot be composed: %s'
+            acc.violation('%s:compose_raises:%s' % (label, core.ename(e)), '%s with these fields cannot be composed: %s'
                           % (cls.__name__, str(e)[:60]), w)
             return
         if got != wire:
